@@ -2,22 +2,34 @@ from props import COMMON_TRUST
 
 
 def group_nontrivial(tok, res):
+    if "|" in res:          # a kept connection was delivered / closed during this op
+        return True
     if tok[0] == "join":
         return res.startswith("err:") or res.startswith("ok")
-    if tok[0] == "conn":
-        return res.startswith("to:") or res in ("stuck", "unauth", "squat")
+    if tok[0] == "dial":
+        return res in ("c", "unauth", "squat")
+    if tok[0] == "resume":
+        return res == "-"
+    if tok[0] in ("conn", "connE"):
+        return res.startswith("to:") or res in ("stuck", "unauth", "squat", "held")
     if tok[0] == "sched":
         return True
     return False
 
 
 def group_class(r):
+    if "|" in r:
+        b, suf = r.split("|", 1)
+        kinds = sorted({f.split("=", 1)[1][:2] for f in suf.split(",") if "=" in f})
+        return group_class(b) + "|" + "+".join({"to": "delivered", "cl": "closed"}.get(k, k) for k in kinds)
     if ";" in r:
         return "crash" if r.endswith("crash") else ("stuck" if "stuck" in r else "fine")
     if r.startswith("to:"):
         return "to"
     if r.startswith("ok:"):
         return "ok:=" if r.endswith("=") else "ok:other-port"
+    if " open=" in r:
+        return group_class(r.split(" open=")[0]) + "+open"
     if r.startswith("used=") or r.startswith("routes="):
         return "dump"
     return r[:18]
@@ -41,6 +53,12 @@ PROP = {
             "Frp.C13.repaired_delivery", "Frp.C13.repaired_stranded_only_if_empty",
             "Frp.C13.repaired_last_leave", "Frp.C13.acquire_some", "Frp.C13.createEp_repaired_truthful",
             "Frp.C13.truthful_partial",
+            "Frp.Group.cinv_step", "Frp.Group.cinv_run", "Frp.Group.run_cap",
+            "Frp.C13.repaired_cinv", "Frp.C13.repaired_queue_empty", "Frp.C13.repaired_no_limbo",
+            "Frp.C13.repaired_no_stranded", "Frp.C13.repaired_pending_waits", "Frp.C13.repaired_pending_closed",
+            "Frp.C13.buffered_stranded_witness",
+            "Frp.Group.ainv_step", "Frp.Group.ainv_run", "Frp.C13.repaired_ainv",
+            "Frp.C13.repaired_none_lost", "Frp.C13.repaired_delivered_once",
         ],
         "engines": [
             {"name": "group", "quick_n": 6000, "thorough_n": 20000, "thorough_seeds": 5,
@@ -49,8 +67,13 @@ PROP = {
         "rule": "group engine: generated join/leave/connection/squat histories on the real TCPGroupCtl "
                 "(real ports.Manager + sockets), HTTPGroupController (real vhost.Routers) and TCPMuxGroupCtl "
                 "(real HTTP-CONNECT muxer), plus gated lookup/enter schedules run in a sacrificial child "
-                "process; non-trivial = a join decided (accepted/refused with a class), a connection "
-                "delivered/stuck/unauthorised, or a schedule; distinct = distinct (op line, result) pairs",
+                "process; user connections whose ARRIVAL IS DECOUPLED FROM PICK-UP (tcp, tcpmux): members that "
+                "joined but are not yet inside Accept (held, later resumed), connections dialled and kept "
+                "open, joins/leaves/resumes/further arrivals in random order, every kept connection followed "
+                "to its end (delivered to whom / closed by frps / still open 2 s after it had to be taken or "
+                "closed); non-trivial = a join decided (accepted/refused with a class), a connection "
+                "delivered/stuck/unauthorised/kept, a kept connection resolved, or a schedule; "
+                "distinct = distinct (op line, result) pairs",
         "trusted": COMMON_TRUST + [
             "model Frp/Model/Group.lean written by hand from server/group/{tcp,http,tcpmux}.go; tied by the group engine",
             "verifhook gates tcpgroup/httpgroup/tcpmuxgroup *.lookedup (hooks/C13.patch) perturb timing only",
@@ -60,6 +83,10 @@ PROP = {
             "http index is a Nat in the model (Go: uint64 converted to int; negative after 2^63 requests)",
             "a member that is in the middle of Close() may still win the receive on acceptCh (not modelled; the proxy then closes the connection)",
             "wildcard domains / the full Routers longest-match are C06's; here exact domains, locations from a prefix-free set plus the empty one",
+            "a held member = a proxy whose goroutine has not reached TCPGroupListener.Accept yet (the scheduler may delay it arbitrarily); the harness realises it by starting the member's accept loop only at `resume`",
+            "tcp: the connection in the worker's hands and those still in the kernel backlog of the group's listener are one set in the model (`inflight`); both are closed when the last member leaves (send on the closed channel / listener close)",
+            "tcpmux: one kept connection at a time — further ones wait inside vhost.Muxer.handle, not in the group; Muxer.handle's recovered send on a closed listener leaves such a connection open (DESIGN §7/10, open on this tree, C11's), which is not driven here",
+            "'stuck' for a kept connection is decided by time: the harness's own books say it must be delivered or closed and it is still open after 2 s",
         ],
     }
 
@@ -67,6 +94,6 @@ META = {
         "engine": "lean+harness(group)",
         "design_ref": "DESIGN.md §6 C13, Appendix A.3",
         "technique": "Lean 4 small-step model of the three two-lock group controllers; invariants over all interleavings for the repaired model, witness schedules for the pinned one; differential correspondence with the real controllers incl. gated schedules in a sacrificial child process",
-        "text": "Proof (model level) + correspondence. For every state, a join meeting a populated group is accepted iff it presents the group's name, key and all compared endpoint parameters (http: and is not yet a member); a refused join changes nothing; http requests rotate index mod n and reach every member within n requests. For the repaired controllers (lookup+join and leave under the controller lock, listen on the acquired port, close on failed hand-off) invariants hold under ALL interleavings: no double close (no panic), endpoint open iff members, every populated group is the one stored under its name, reported port = listening port, no leaked port, no connection left in limbo, immediate re-creation after the last leave. For the pinned tree the same statements are refuted by kernel-checked witness schedules which the harness reproduces on the real code (frps dies).",
+        "text": "Proof (model level) + correspondence. For every state, a join meeting a populated group is accepted iff it presents the group's name, key and all compared endpoint parameters (http: and is not yet a member); a refused join changes nothing; http requests rotate index mod n and reach every member within n requests. For the repaired controllers (lookup+join and leave under the controller lock, listen on the acquired port, close on failed hand-off) invariants hold under ALL interleavings: no double close (no panic), endpoint open iff members, every populated group is the one stored under its name, reported port = listening port, no leaked port, no connection left in limbo, immediate re-creation after the last leave. User connections, with arrival decoupled from pick-up: because the hand-off channel is unbuffered, under ALL interleavings every connection that reached a group's listener is in exactly one place — waiting with the worker, received by exactly one member, or closed by frps; none is ever stranded (open in nobody's hands, or buffered in the channel of a group without members); while a member is live the worker keeps a waiting connection; those still waiting when the last member has left are closed. A kernel-checked witness shows that the same controllers with any channel capacity > 0 strand the connections buffered at the last leave while everything else (delivery, re-creation) still works. For the pinned tree the same statements are refuted by kernel-checked witness schedules which the harness reproduces on the real code (frps dies).",
         "note": "Trusted: Lean kernel; hand-written model; harness generators. KNOWN findings: C13-tcp-group-port0-listen, C13-group-revived-after-last-leave, C13-http-group-leaked-route.",
     }
